@@ -555,7 +555,34 @@ pub fn container_shards(tier: Tier) -> Vec<Shard> {
     out.push(Box::new(ver_variants));
     out.push(Box::new(member_name_values));
     out.push(Box::new(unit_named_keys));
+    out.push(Box::new(order_variants));
     out
+}
+
+/// Order and repetition: grids whose columns are not in name order, the same row / element /
+/// value twice, a Ref and a Str with the same text side by side, two Numbers with the same unit,
+/// rows whose cells are given in another order than the columns.
+pub fn order_variants(sink: &mut dyn FnMut(V)) {
+    let vals = [V::num(1.0), V::numu(1.0, "kW"), V::str("r"), V::Ref("r".into(), None), V::Ref("r".into(), Some("r".into())), V::Sym("r".into()), V::Uri("r".into()), V::Marker, V::dt(1_625_097_600, 0, "America/New_York")];
+    for a in &vals {
+        for b in &vals {
+            sink(V::List(vec![a.clone(), b.clone(), a.clone()]));
+            sink(V::dict(&[("a", a.clone()), ("b", b.clone()), ("c", a.clone())]));
+            for cols in [["b", "a", "c"], ["c", "b", "a"], ["zZ_9", "a", "B"]] {
+                let valid = cols.iter().all(|c| c.chars().next().unwrap().is_ascii_lowercase());
+                if !valid {
+                    continue;
+                }
+                let row = mk_tags(&[(cols[0], a.clone()), (cols[2], b.clone())]);
+                sink(V::Grid(Box::new(G {
+                    ver: "3.0".into(),
+                    meta: Some(mk_tags(&[("m", a.clone()), ("n", b.clone())])),
+                    cols: cols.iter().map(|c| Col { name: c.to_string(), meta: if *c == "a" { Some(mk_tags(&[("k", b.clone())])) } else { None } }).collect(),
+                    rows: vec![row.clone(), mk_tags(&[(cols[1], b.clone())]), row],
+                })));
+            }
+        }
+    }
 }
 
 /// Grids whose `ver` is not the default, with every grid-meta variant (absent, empty, one tag,
@@ -685,6 +712,22 @@ pub fn size_witnesses(tier: Tier) -> Vec<V> {
             rows,
         })));
     }
+    // many sibling containers at the same depth (a depth counter that leaks per container shows here)
+    for &n in &widths {
+        if n > 1000 {
+            continue;
+        }
+        let g = |i: usize| V::Grid(Box::new(G { ver: "3.0".into(), meta: None, cols: vec![Col { name: "v".into(), meta: None }], rows: vec![mk_tags(&[("v", V::num(i as f64))])] }));
+        v.push(V::List((0..n).map(g).collect()));
+        v.push(V::List((0..n).map(|i| V::List(vec![V::num(i as f64)])).collect()));
+        v.push(V::List((0..n).map(|i| V::dict(&[("k", V::num(i as f64))])).collect()));
+        v.push(V::Grid(Box::new(G {
+            ver: "3.0".into(),
+            meta: None,
+            cols: vec![Col { name: "id".into(), meta: None }, Col { name: "his".into(), meta: None }],
+            rows: (0..n).map(|i| mk_tags(&[("id", V::Ref(format!("p{i}"), None)), ("his", g(i))])).collect(),
+        })));
+    }
     // deep nesting below the decoders' limit (128): list / dict / grid chains and mixed
     for &d in &[8usize, 16, 32, 40, 60, 100, 120, 126, 127] {
         for pat in [b"l".as_slice(), b"d", b"g", b"ldg", b"gl"] {
@@ -745,24 +788,41 @@ pub fn member_name_values(sink: &mut dyn FnMut(V)) {
         V::Dict(vec![]),
         V::dict(&[("ver", V::str("3.0"))]),
         V::Marker,
+        // strings that mean something to the member of that name
+        V::str("kW"),
+        V::str("New_York"),
+        V::str("number"),
+        V::str("2.0"),
     ];
-    let n = MEMBER_NAMES.len();
+    // the static list first (also paired with each other), then every name harvested from the source
+    let mut all: Vec<String> = MEMBER_NAMES.iter().map(|s| s.to_string()).collect();
+    for h in harvested_names() {
+        if !all.contains(h) {
+            all.push(h.clone());
+        }
+    }
+    let names: Vec<&str> = all.iter().map(|s| s.as_str()).collect();
+    let n_static = MEMBER_NAMES.len();
+    let n = names.len();
     for i in 0..n {
         for a in &vals {
-            let d = V::dict(&[(MEMBER_NAMES[i], a.clone())]);
+            let d = V::dict(&[(names[i], a.clone())]);
             sink(d.clone());
             sink(V::List(vec![d.clone()]));
             // as a column, with that tag in the row, in grid meta and in column meta
             sink(V::Grid(Box::new(G {
                 ver: "3.0".into(),
                 // `ver` is the one reserved grid-meta name: both formats carry the grid version there
-                meta: if MEMBER_NAMES[i] == "ver" { None } else { Some(mk_tags(&[(MEMBER_NAMES[i], a.clone())])) },
-                cols: vec![Col { name: MEMBER_NAMES[i].to_string(), meta: Some(mk_tags(&[(MEMBER_NAMES[i], a.clone())])) }, Col { name: "zz".into(), meta: None }],
-                rows: vec![mk_tags(&[(MEMBER_NAMES[i], a.clone())]), mk_tags(&[("zz", d.clone())])],
+                meta: if names[i] == "ver" { None } else { Some(mk_tags(&[(names[i], a.clone())])) },
+                cols: vec![Col { name: names[i].to_string(), meta: Some(mk_tags(&[(names[i], a.clone())])) }, Col { name: "zz".into(), meta: None }],
+                rows: vec![mk_tags(&[(names[i], a.clone())]), mk_tags(&[("zz", d.clone())]), mk_tags(&[(names[i], V::num(3.0)), ("zz", V::num(4.0))])],
             })));
-            for j in (i + 1)..n {
+            for j in (i + 1)..n_static.max(i + 1).min(n) {
+                if i >= n_static {
+                    break;
+                }
                 for b in &vals {
-                    sink(V::dict(&[(MEMBER_NAMES[i], a.clone()), (MEMBER_NAMES[j], b.clone())]));
+                    sink(V::dict(&[(names[i], a.clone()), (names[j], b.clone())]));
                 }
             }
         }
@@ -810,4 +870,49 @@ pub fn unit_named_keys(sink: &mut dyn FnMut(V)) {
         }
         sink(V::List(vec![V::num(5.0), V::Sym(id.clone()), V::num(1e21), V::Str(id.clone())]));
     }
+}
+
+/// Identifier-like string literals of the library's own source (tag names, member names, keywords
+/// the code gives a meaning to): read from /repo/src at run time, so a change that starts to treat
+/// a new name specially brings that name into the alphabets by itself.
+pub fn harvested_names() -> &'static Vec<String> {
+    static N: std::sync::OnceLock<Vec<String>> = std::sync::OnceLock::new();
+    N.get_or_init(|| {
+        let mut out = std::collections::BTreeSet::new();
+        fn walk(dir: &std::path::Path, out: &mut std::collections::BTreeSet<String>) {
+            let Ok(rd) = std::fs::read_dir(dir) else { return };
+            for e in rd.flatten() {
+                let p = e.path();
+                if p.is_dir() {
+                    walk(&p, out);
+                } else if p.extension().map_or(false, |x| x == "rs") && !p.ends_with("units_generated.rs") && !p.ends_with("verif_hooks.rs") {
+                    let Ok(text) = std::fs::read_to_string(&p) else { continue };
+                    // stop at the unit tests of the file
+                    let text = text.split("#[cfg(test)]").next().unwrap_or("").to_string();
+                    let b = text.as_bytes();
+                    let mut i = 0;
+                    while i < b.len() {
+                        if b[i] == b'"' {
+                            let st = i + 1;
+                            let mut j = st;
+                            while j < b.len() && b[j] != b'"' && b[j] != b'\\' && j - st < 40 {
+                                j += 1;
+                            }
+                            if j < b.len() && b[j] == b'"' {
+                                let w = &text[st..j];
+                                let mut cs = w.chars();
+                                if cs.next().map_or(false, |c| c.is_ascii_lowercase()) && w.len() <= 24 && cs.all(|c| c.is_ascii_alphanumeric() || c == '_') {
+                                    out.insert(w.to_string());
+                                }
+                                i = j;
+                            }
+                        }
+                        i += 1;
+                    }
+                }
+            }
+        }
+        walk(std::path::Path::new(&format!("{}/src", crate::engine::repo_dir())), &mut out);
+        out.into_iter().collect()
+    })
 }
